@@ -72,3 +72,27 @@ func Harness_C17_src_monotone() {
 	}
 	vreach("end")
 }
+
+// the order of two fields inside one struct declaration (an extension of the
+// declaration-order clause: the embedded fields of d1 and the fields of t1)
+func Harness_C17_src_fields() {
+	slots := ugPresets[vchoose(len(ugPresets))]
+	ugSwap.on = false
+	base := ugBase(slots)
+	type sw struct{ chunk, a, b int }
+	sws := []sw{}
+	for ci, c := range ugSkeleton {
+		switch c.name {
+		case "d1":
+			sws = append(sws, sw{ci, 1, 2})
+		case "t1":
+			sws = append(sws, sw{ci, 1, 2}, sw{ci, 2, 3}, sw{ci, 1, 3})
+		}
+	}
+	w := sws[vchoose(len(sws))]
+	ugSwap.on, ugSwap.chunk, ugSwap.a, ugSwap.b = true, w.chunk, w.a, w.b
+	perm := ugBase(slots)
+	ugSwap.on = false
+	ugSameVerdicts(base, perm, "the verdict of an object changes when two fields of a struct declaration are exchanged")
+	vreach("end")
+}
